@@ -118,6 +118,251 @@ fn c01_profile(index: u64) -> Profile {
     p
 }
 
+/// Highest sequence offset the client will have used by the end of the plan.
+fn seq_span(plan: &LPlan) -> u64 {
+    plan.actions
+        .iter()
+        .map(|a| match &a.kind {
+            crate::lsim::plan::Action::Burst { n, stride, .. } => *n as u64 * *stride as u64,
+            _ => 0,
+        })
+        .sum()
+}
+
+fn traffic_window(plan: &LPlan) -> (u64, u64) {
+    let ts: Vec<u64> = plan
+        .actions
+        .iter()
+        .filter(|a| matches!(a.kind, crate::lsim::plan::Action::Burst { .. }))
+        .map(|a| a.t)
+        .collect();
+    let lo = ts.iter().copied().min().unwrap_or(3000);
+    (lo, plan.horizon_ms.max(lo + 1))
+}
+
+/// Forged-but-well-formed receiver traffic around the client's sequence space:
+/// cumulative ACKs (stale, duplicate, far ahead), SRTLA ACK lists on any link,
+/// NAK singles and ranges (known, unknown, repeated).
+fn inject_ack_nak_noise(plan: &mut LPlan, seed: u64, n_lo: u64, n_hi: u64) {
+    use crate::lsim::env::{build_nak, build_srt_ack};
+    use crate::lsim::plan::{Action, TimedAction, hex};
+    let mut r = crate::prng::Rng::new(seed ^ 0xACC0);
+    let span = seq_span(plan).max(10);
+    let (lo, hi) = traffic_window(plan);
+    let base = plan.client.start_seq as u64;
+    let k = r.range(n_lo, n_hi);
+    for _ in 0..k {
+        let t = r.range(lo, hi);
+        let link = r.below(plan.n_links as u64) as usize;
+        let near = |r: &mut crate::prng::Rng| -> u32 {
+            let off = match r.below(6) {
+                0 => r.range(0, span + 300),
+                1 => span + r.range(64, 5000),
+                _ => r.range(0, span),
+            };
+            ((base + off) & 0x7FFF_FFFF) as u32
+        };
+        let bytes = match r.below(4) {
+            0 => build_srt_ack(near(&mut r), r.below(1000) as u32),
+            1 => {
+                let mut p = vec![0x91, 0, 0, 0];
+                for _ in 0..r.range(1, 6) {
+                    p.extend_from_slice(&near(&mut r).to_be_bytes());
+                }
+                p
+            }
+            2 => {
+                let a = near(&mut r);
+                let mut list: Vec<u32> = (0..r.range(1, 5)).map(|i| a + i as u32).collect();
+                if r.chance(0.3) {
+                    list.push(a);
+                }
+                if r.chance(0.3) {
+                    list.push(near(&mut r));
+                }
+                build_nak(&list)
+            }
+            _ => {
+                // explicit range entry, possibly wide
+                let a = near(&mut r);
+                let w = *r.pick(&[0u32, 1, 3, 40, 900, 3000]);
+                let mut p = vec![0x80, 0x03, 0, 0];
+                p.extend_from_slice(&(a | 0x8000_0000).to_be_bytes());
+                p.extend_from_slice(&(a + w).to_be_bytes());
+                p
+            }
+        };
+        plan.actions.push(TimedAction {
+            t,
+            kind: Action::Inject {
+                link,
+                hex: hex(&bytes),
+                delay: r.range(0, 30),
+            },
+        });
+    }
+    plan.actions.sort_by_key(|a| a.t);
+}
+
+fn c02_profile(index: u64) -> Profile {
+    let mut p = Profile::base("c02");
+    p.p_fault_free = 0.3;
+    p.net_loss = true;
+    p.blackholes = true;
+    p.link_loss = index % 2 == 0;
+    p.receiver_restart = index % 4 == 3;
+    p.timeouts = true;
+    p.low_stall_threshold_bias = true;
+    p.collisions = index % 3 == 0;
+    p.horizon_hi_ms = 14_000;
+    p
+}
+
+fn c02_post(plan: &mut LPlan, seed: u64) {
+    plan.fine = true;
+    inject_ack_nak_noise(plan, seed, 2, 14);
+}
+
+/// Must-land traffic all along the stream: retransmissions and critical windows.
+fn sprinkle_must_land(plan: &mut LPlan, seed: u64) {
+    use crate::lsim::plan::{Action, TimedAction};
+    let mut r = crate::prng::Rng::new(seed ^ 0x3057);
+    let (lo, hi) = traffic_window(plan);
+    let mut t = lo + r.range(10, 300);
+    while t < hi {
+        if r.chance(0.7) {
+            plan.actions.push(TimedAction {
+                t,
+                kind: Action::Rexmit { back: r.range(0, 200) as u32, count: r.range(1, 3) as u32 },
+            });
+        } else {
+            plan.actions.push(TimedAction { t, kind: Action::Critical { ms: r.range(10, 600) } });
+        }
+        t += r.range(40, 600);
+    }
+    plan.actions.sort_by_key(|a| a.t);
+}
+
+fn c04_profile(index: u64) -> Profile {
+    let mut p = Profile::base("c04");
+    p.p_fault_free = 0.1;
+    p.links_lo = 2;
+    p.net_loss = index % 2 == 0;
+    p.blackholes = true;
+    p.link_loss = true;
+    p.receiver_restart = index % 5 == 0;
+    p.stalls = index % 4 == 1;
+    p.config_changes = index % 3 == 0;
+    p.critical = true;
+    p.timeouts = true;
+    p.small_timeout_bias = index % 2 == 1;
+    p.low_stall_threshold_bias = true;
+    p.max_bursts = 8;
+    p.horizon_lo_ms = 8_000;
+    p.horizon_hi_ms = 24_000;
+    p
+}
+
+fn c04_post(plan: &mut LPlan, seed: u64) {
+    sprinkle_must_land(plan, seed);
+    // keep the stream going for the whole horizon so faults land inside traffic
+    use crate::lsim::plan::{Action, TimedAction};
+    let mut r = crate::prng::Rng::new(seed ^ 0x57EA);
+    let (lo, hi) = traffic_window(plan);
+    if r.chance(0.7) {
+        let pps = *r.pick(&[50u32, 200, 600]);
+        plan.actions.push(TimedAction {
+            t: lo,
+            kind: Action::Burst {
+                n: (((hi - lo) * pps as u64) / 1000).min(6000) as u32,
+                pps,
+                size_lo: 200,
+                size_hi: 1316,
+                stride: 1,
+            },
+        });
+        plan.actions.sort_by_key(|a| a.t);
+    }
+}
+
+fn c05_profile(index: u64) -> Profile {
+    let mut p = Profile::base("c05");
+    p.p_fault_free = 0.3;
+    p.net_loss = true;
+    p.blackholes = true;
+    p.reloads = index % 4 == 1;
+    p.collisions = true;
+    p.timeouts = true;
+    p.low_stall_threshold_bias = true;
+    p.horizon_hi_ms = 16_000;
+    p
+}
+
+fn c05_post(plan: &mut LPlan, seed: u64) {
+    use crate::lsim::env::build_nak;
+    use crate::lsim::plan::{Action, TimedAction, hex};
+    plan.fine = true;
+    inject_ack_nak_noise(plan, seed, 4, 20);
+    let mut r = crate::prng::Rng::new(seed ^ 0xE791);
+    if r.chance(0.35) {
+        // Expiry-boundary scenario: a silent receiver keeps packets outstanding
+        // for five seconds; NAKs arrive exactly 5000 / 5001 ms after queueing.
+        plan.cfg.conn_timeout_ms = 15_000;
+        let span = seq_span(plan);
+        let tb = plan.horizon_ms.max(6_000);
+        let base = ((plan.client.start_seq as u64 + span) & 0x7FFF_FFFF) as u32;
+        plan.actions.push(TimedAction { t: tb - 2, kind: Action::ReceiverMode { mode: "silent".into() } });
+        plan.actions.push(TimedAction {
+            t: tb,
+            kind: Action::Burst { n: r.range(2, 40) as u32, pps: 1000, size_lo: 100, size_hi: 400, stride: 1 },
+        });
+        for (k, dt) in [5000u64, 5001, 4999, 5000].iter().enumerate() {
+            let link = r.below(plan.n_links as u64) as usize;
+            // the k-th packet of the burst was queued at tb + k ms (1000 pps)
+            let seq = base.wrapping_add(k as u32) & 0x7FFF_FFFF;
+            let lat = 0;
+            plan.actions.push(TimedAction {
+                t: tb + k as u64 + dt - lat,
+                kind: Action::Inject { link, hex: hex(&build_nak(&[seq])), delay: 0 },
+            });
+        }
+        plan.horizon_ms = tb + 6_000;
+        plan.actions.sort_by_key(|a| a.t);
+    }
+}
+
+fn c10_profile(index: u64) -> Profile {
+    let mut p = Profile::base("c10");
+    p.force_classic = Some(index % 6 != 5);
+    p.force_guard = Some(false);
+    p.p_fault_free = 0.4;
+    p.net_loss = true;
+    p.blackholes = index % 3 == 0;
+    p.link_loss = index % 3 == 1;
+    p.random_windows = true;
+    p.critical = true;
+    p.timeouts = index % 2 == 0;
+    p.horizon_hi_ms = 14_000;
+    p
+}
+
+fn c10_post(plan: &mut LPlan, seed: u64) {
+    use crate::lsim::plan::{Action, TimedAction};
+    plan.fine = true;
+    sprinkle_must_land(plan, seed);
+    inject_ack_nak_noise(plan, seed, 0, 8);
+    if !plan.cfg.classic {
+        // an enhanced-mode phase first, leaving quality caches stale
+        let mut r = crate::prng::Rng::new(seed ^ 0xC1A5);
+        let (lo, hi) = traffic_window(plan);
+        plan.actions.push(TimedAction {
+            t: r.range(lo, (lo + hi) / 2),
+            kind: Action::Control { line: r#"{"jsonrpc":"2.0","method":"set_mode","params":{"mode":"classic"}}"#.into() },
+        });
+        plan.actions.sort_by_key(|a| a.t);
+    }
+}
+
 pub fn all() -> Vec<Box<dyn Check>> {
     vec![Box::new(LCheck {
         id: "C01",
@@ -134,5 +379,66 @@ pub fn all() -> Vec<Box<dyn Check>> {
             "the stall-gated flag read back after a routing decision is the one that decision computed",
         ],
         probes: &["c01.accepted", "c01.threshold_flush", "c01.timer_flush"],
+    }),
+    Box::new(LCheck {
+        id: "C02",
+        level: "exploration",
+        profile: c02_profile,
+        post: Some(c02_post),
+        monitors: || vec![Box::new(crate::mon::c02::C02::new())],
+        quick_runs: 400,
+        thorough_runs: 20_000,
+        rule: "one run = one seeded closed-loop plan (send side fault-free) with client retransmissions of already-acknowledged numbers, duplicate probes, receiver ACK/NAK traffic plus forged well-formed cumulative ACKs (stale, duplicate, >64 ahead), SRTLA ACK lists on any link and NAK singles/ranges; one uplink datagram per step. After every step each link's outstanding log is compared, as a set, with the set model. Non-trivial = at least one send, ACK, NAK or reset event was applied; distinct = distinct event-log hashes among non-trivial runs",
+        assumptions: &[
+            "send failures are outside C02's quantifier and are not injected in these runs",
+            "which other holder an unattributed SRTLA ACK retires, and whether a NAK is charged, are taken from observation (C05 judges the charge)",
+            "the packet log exposed by the repository's own test-internals feature is the implementation's notion of outstanding packets",
+        ],
+        probes: &["c02.sent", "c02.cumulative_ack", "c02.srtla_ack_retired", "c02.nak_retired", "c02.reset"],
+    }),
+    Box::new(LCheck {
+        id: "C04",
+        level: "fault_enumeration",
+        profile: c04_profile,
+        post: Some(c04_post),
+        monitors: || vec![Box::new(crate::mon::c04::C04::new())],
+        quick_runs: 400,
+        thorough_runs: 20_000,
+        rule: "one run = one seeded closed-loop plan on 2..4 uplinks with black holes, link loss, short timeouts, receiver restarts, mode/quality/guard/timeout changes at run time, retransmit-flagged data and critical windows all along the stream. At every routing decision after the session is established the link that received the unique copy is judged by an independent eligibility model (REG3 since last reset; heard within the timeout in force by the monitor's own stamps; not stall-gated in this decision). Non-trivial = at least one routed datagram while an ineligible-but-connected link existed or a must-land packet was routed; distinct = distinct event-log hashes among non-trivial runs",
+        assumptions: &[
+            "the stall-gated flag read back immediately after a routing decision is the one that decision computed",
+            "the timeout in force at a routing decision is the configured value (the selector copies it onto the links first)",
+        ],
+        probes: &["c04.routed", "c04.must_land_packet", "c04.ineligible_link_present"],
+    }),
+    Box::new(LCheck {
+        id: "C05",
+        level: "exploration",
+        profile: c05_profile,
+        post: Some(c05_post),
+        monitors: || vec![Box::new(crate::mon::c05::C05::new())],
+        quick_runs: 400,
+        thorough_runs: 15_000,
+        rule: "one run = one seeded closed-loop plan with duplicate probes, retransmissions routed to other links, sequence strides that collide modulo 16384, a 5000/5001 ms expiry-boundary scenario under a silent receiver, reload removing links, and NAK lists from the receiver model plus forged ones (singles, ranges, repeats, unknown numbers); one uplink datagram per step. Every NAK entry is judged against an independent ownership table and the exact charge arithmetic is checked per datagram. Non-trivial = at least one NAK entry was judged; distinct = distinct event-log hashes among non-trivial runs",
+        assumptions: &[
+            "which holder lost a NAKed number is read from the packet log after the datagram (one datagram per step)",
+            "for a NAK the sender no longer has a record for, charging any one holder or nobody is accepted",
+        ],
+        probes: &["c05.nak_entry", "c05.tracked", "c05.untracked", "c05.charged", "c05.unknown_nak", "c05.two_holders"],
+    }),
+    Box::new(LCheck {
+        id: "C10",
+        level: "exploration",
+        profile: c10_profile,
+        post: Some(c10_post),
+        monitors: || vec![Box::new(crate::mon::c10::C10::new())],
+        quick_runs: 400,
+        thorough_runs: 15_000,
+        rule: "one run = one seeded closed-loop plan in classic mode with the stall guard off, starting from a random window vector in [1000, 60000], with retransmit-flagged data and critical windows, SRTLA ACKs, cumulative ACKs, NAKs and housekeeping ticks (some runs begin in enhanced mode and switch, leaving quality caches stale); one uplink datagram per step. An independent re-implementation of the reference rules predicts every routing choice and every window from the observed pre-state. Non-trivial = at least one decision was compared; distinct = distinct event-log hashes among non-trivial runs",
+        assumptions: &[
+            "usable = REG3 since last reset, connected, heard within the configured timeout (monitor's own stamps)",
+            "which link a NAK was charged to is taken from observation (C05 judges it)",
+        ],
+        probes: &["c10.decision", "c10.srtla_ack", "c10.nak", "c10.must_land_packet", "c10.housekeeping"],
     })]
 }
